@@ -37,6 +37,13 @@ def histories(rng, tier):
     # plus systematic threaded measurements of high qubits on 4-6 qubit registers
     hs = regcheck.thread_mix(rng, hs, 0.33)
     hs += regcheck.threaded_core(rng, tier, sample=False)
+    # registers with a past (grown, shrunk, regrown, multiplied, measured before): full, high-qubit and random masks
+
+    def observe(r, n):
+        full = (1 << n) - 1
+        m = r.choice([full, full, (1 << (n - 1)) if n else 0, r.randrange(1 << n) | ((1 << (n - 1)) if n else 0), full | (1 << (n + 1))])
+        return [("dump",), ("measure", m), ("dump",), ("measure", m), ("dump",)]
+    hs += regcheck.lifecycle_histories(rng, tier, observe)
     return hs
 
 
